@@ -16,8 +16,8 @@ From V Require Import MVCC.Spec MVCC.SpecProofs MVCC.Tx MVCC.Validate MVCC.Seria
    exclusion key, sets / transient sets with metadata, deletes, key readers with bounds, direction,
    filters, offsets, any pattern of Read / Reset / early stop, prefix fingerprints) and EVERY
    current state c: if the read-set p produced on s0 passes the commit-time validation against c,
-   and the execution is gap-free (no prefix read was answered by an own write, no reader segment
-   ends on own writes), then p run alone on c returns exactly the same result for every
+   and the execution is gap-free (no prefix read was answered by an own write other than the prefix
+   itself, no reader segment ends on own writes), then p run alone on c returns exactly the same result for every
    operation and writes exactly the same entries. *)
 Theorem validated_reads_are_current_partial :
   forall (s0 c : state) (p : list op),
